@@ -18,6 +18,8 @@ type simProp struct {
 	Rule             string
 	MaxPlain, MaxRel int
 	MinRel           int
+	// CaseCfg may derive a per-case configuration (drawn) from the base configuration.
+	CaseCfg func(rt *rapid.T, cfg core.SimConfig, u *core.Universe) core.SimConfig
 	// Setup may adjust generator and sim before the history starts.
 	Setup func(rt *rapid.T, sim *core.Sim, g *core.Gen)
 	// Observe is called after every applied op; it labels the case and decides non-triviality.
@@ -117,7 +119,11 @@ func runSimProp(t *testing.T, p *simProp) {
 			cs := st.Begin()
 			defer cs.End()
 			labelUniverse(cs, u)
-			sim := core.NewSim(rt, p.Cfg, u, st, cs)
+			cfg := p.Cfg
+			if p.CaseCfg != nil {
+				cfg = p.CaseCfg(rt, cfg, u)
+			}
+			sim := core.NewSim(rt, cfg, u, st, cs)
 			g := &core.Gen{M: sim.M, Mix: p.Mix, Lim: p.Lim}
 			if g.Lim.MaxAlive == 0 {
 				g.Lim = core.DefaultLimits
